@@ -59,6 +59,11 @@ THEOREMS = [
     "VK.C08_seqrcv_cand_order",
     "VK.reRS_same_sets",
     "VK.C08_cand_order_random_transfer_differs",
+    "VK.reach_re",
+    "VK.C08_tiers_cand_order",
+    "VK.C08_condorcet_cand_order",
+    "VK.C08_domsets_cand_order",
+    "VK.C08_condoborda_cand_order",
 ]
 RULE = ("cases = deterministic configuration of every ranking / scoring / pairwise rule (as in C10) on a random profile; "
         "five transformations of the input: rename the candidates by a random bijection into a second name pool (sort "
